@@ -410,6 +410,9 @@ var oddRefs = []string{"", "#", "%zz", "http://[::1", "a b", "//", "HTTP://Host:
 	// characters that JSON has to escape, in the parts of a URL that net/url prints verbatim (query, opaque part)
 	"#/definitions/100%25", "#/definitions/a%2520b", "#/definitions/%FF", "#/definitions/{id}", "#/definitions/a b", "doc.json#/definitions/%2525",
 	`other.json?filter="a"#/definitions/x`, `models.json?rev=2","title":"injected`, `urn:schemas\thing`, `mailto:a"b@c`, `a.json?q=\u0041`}
+var urlTextKeywords = map[string]bool{"url": true, "authorizationUrl": true, "tokenUrl": true, "termsOfService": true, "namespace": true, "host": true, "basePath": true}
+var oddURLTexts = []string{"HTTPS://Example.COM/x", "https://example.com/contact#", "https://example.com/support team", "https://example.com/licença",
+	"https://example.com/a/../b//c", "http://example.com:80/", "%zz", "http://[::1", "a b", "the url", "//", "mailto:A@B.c", "https://example.com/?q=a b#f g"}
 var jsonTypes = []string{"string", "number", "integer", "boolean", "array", "object", "null"}
 var statusCodes = []string{"200", "201", "204", "400", "404", "500", "100", "599", "600", "701", "999"} // any three digits (^([0-9]{3})$ in the meta-schema)
 var xorderValues = []string{"", "0", "1", "1", "1.5", `"1"`, `"x"`, "-1", "1099511627776", "true"}
@@ -1239,6 +1242,13 @@ func phase3Systematic(emit func(cdoc)) {
 			if kw.special == "schema-url" { // the same spellings where a URL is expected ($schema is parsed, and printed back, as a URL)
 				for _, o := range oddRefs {
 					emit(cdoc{kind: kind, doc: withMember(base, kw.name, jStr(o)), phase: 3, tags: []string{"phase3", "mutation:schema-url", "systematic", "kw:" + kw.name}})
+				}
+			}
+			if urlTextKeywords[kw.name] && kw.special == "" && kw.ft.class == "str" {
+				// members whose value is the text of a URL (format: uri) but is kept as a plain string: every text survives as written,
+				// whatever a URL parser would make of it
+				for _, o := range oddURLTexts {
+					emit(cdoc{kind: kind, doc: withMember(base, kw.name, jStr(o)), nf: true, phase: 2, tags: []string{"url-text", "systematic", "kw:" + kw.name}})
 				}
 			}
 			if kw.special == "ref" {
